@@ -68,10 +68,17 @@ def _classify(op, a, b):
             add("sheet-list-differs", f"{k}: library {ha.get(k)} file {hb.get(k)}")
     if ha.get("names") != hb.get("names"):
         xa, xb = set(ha.get("names", "").split("|")), set(hb.get("names", "").split("|"))
+        # name:scope:text:home - the same names with the same texts, found in another list (workbook / sheet k) than expected
+        strip = lambda xs: sorted(x.rsplit(":", 1)[0] for x in xs if x.count(":") == 3)
+        if strip(xa) == strip(xb) and all(x.count(":") == 3 for x in xa | xb):
+            for it in sorted(xb - xa)[:3]:
+                p = it.split(":")
+                add("defined-name-home-differs", f"{_unhex(p[0])} scope {p[1]}: expected in list {p[3]}, library has it in {[x.split(':')[3] for x in xa - xb if x.split(':')[:3] == p[:3]]}")
+            xb = xa
         for it in sorted(xb - xa)[:3]:
             p = it.split(":")
             add("defined-name-differs", f"file {_unhex(p[0])} scope {p[1] if len(p) > 1 else ''} = {_unhex(p[2]) if len(p) > 2 else ''}; library has {[_unhex(x.split(':')[2]) for x in xa - xb if x.split(':')[0] == p[0]]}")
-        if not (xb - xa):
+        if not (xb - xa) and xa - xb:
             add("defined-name-differs", f"library only: {sorted(xa - xb)[:2]}")
     if len(sa) != len(sb):
         add("sheet-count-differs", f"{len(sa)} vs {len(sb)}")
@@ -140,7 +147,7 @@ def _classify(op, a, b):
 
 
 PROP = {
-    "thm": ["Umya.Thm.C03", "Umya.Thm.C03Cell", "Umya.Thm.C03Sheet", "Umya.Thm.C03Gen", "Umya.Thm.C03Book"],
+    "thm": ["Umya.Thm.C03", "Umya.Thm.C03Cell", "Umya.Thm.C03Sheet", "Umya.Thm.C03Gen", "Umya.Thm.C03Book", "Umya.Thm.C03Names"],
     "harness": "c03",
     "level": "translation_validation",
     "stateful": True,
@@ -151,7 +158,7 @@ PROP = {
     "driver_timeout": 3000,
     "level_text": "Translation validation per file by an independent decoder executed in Lean, plus theorems for the cell-level reading rules. Every part of every "
                   "file (53 corpus files in the quick tier, all 55 in the thorough tier; 300 / 5000 packages emitted by a seed-driven xlsx grammar that writes the XML itself; "
-                  "13 hand-written boundary packages) is lexed by an XML 1.0 reader and decoded by an OPC/SpreadsheetML decoder written from the standards "
+                  "14 hand-written boundary packages) is lexed by an XML 1.0 reader and decoded by an OPC/SpreadsheetML decoder written from the standards "
                   "(Umya.Spec.Xml, Umya.Spec.Sml, Umya.Spec.SharedFormula, Umya.Spec.Double): cells with value / kind / formula incl. expanded shared formulas, numbers as "
                   "exact binary64 bit patterns, style facts through cellXfs (numFmt id / custom code, bold, fill pattern and foreground colour), columns, rows, hyperlinks "
                   "through the rels part, tables, defined names, sheet list. Its view must equal the view printed from the workbook the LIBRARY loaded (read_reader + public getters). "
@@ -170,6 +177,13 @@ PROP = {
                   "C03_sst (the shared-strings table the library builds holds at every index the decoder's rstText, <si/> / <t/> / runs / phonetic runs included; C03_sst_cell composes it with t=s cells), "
                   "C03_rels + C03_hyperlinks (r:id -> first relationship with that Id -> Target, location, tooltip: link by link the decoder's Link, for any number of links; C03_hyperlinks_is_decodeSheet), "
                   "C03_sheet_list (names, states, r:id and the relationship each sheet selects), C03_merges_partial, C03_defined_names_partial. "
+                  "Workbook level (Thm/C03Names.lean, model Umya/Model/ReaderBook.lean): C03_merges (full: Range::set_range / get_range inside the merge loop, from C17_range: for every list of mergeCell elements whose ref is the A1 text of a "
+                  "cell / cell:cell / whole rows / whole columns range, no panic and get_merge_cells() prints exactly the decoder's merges), C03_defined_names (full for what the decoder delivers - name, scope, text - with set_address / get_address "
+                  "inside the model, from C06_defined_name_roundtrip / _text_kept: every text that is not a plain area list, and area lists in the spelling get_address_ptn2 prints; C03_defined_name_areas), C03_names_home (the re-homing loop of workbook.rs: "
+                  "no panic iff every localSheetId is inside the sheet list, every name kept once in document order, a scoped name in the list of sheet localSheetId, an unscoped name by the sheet of its FIRST area, else the workbook list), "
+                  "C03_sheet_paths / C03_sheet_part (join_paths(\"xl\", target) after the /xl/ stripping = the decoder's resolveTargetL against xl/workbook.xml for EVERY relative target and every absolute target in normal form - completes C03_sheet_list), "
+                  "C03_table_columns (table.rs vs decodeTable: name, displayName, column names, area), C03_book_sheet and C03_book (ONE theorem for a package: under the per-part validity predicates the reader model readBook - the function the driver runs "
+                  "against the implementation on every file - does not panic, Spec.Sml.decode delivers a BookV, and both show the same sheet list and per sheet the same cells in document order, resolved style facts of every cell, merged ranges, hyperlinks, and the same defined names, scoped names at home on their sheet). "
                   "Style resolution through cellXfs (Thm/C03Book.lean, model Umya/Model/ReaderStyle.lean built from the C05 codec models Umya.StyleCodec.*.read and Umya.Style.pick; decoder Spec.Sml.styleTable, "
                   "extended for this from ECMA-376 18.8 with FontV / FillV / BorderV / AlignV / ProtV and the apply* attributes): C03_style_resolution (for EVERY styles.xml tree with the explicit decidable validStyles - any "
                   "number of numFmts, fonts, fills, borders, xfs; children in any order; optional children / attributes present or not; apply* flags 0 / 1 / true / false / absent - the model of Stylesheet::set_attributes + make_style "
@@ -200,15 +214,17 @@ PROP = {
                         "C03_hyperlink_location_with_rid_fails", "C03_merges_partial", "C03_merges_is_decodeSheet", "C03_sheet_list",
                         "C03_defined_names_partial",
                         "C03_style_resolution", "C03_style_cell", "C03_style_cell_unstyled", "C03_style_components",
-                        "C03_style_alignment_from_cell_style_fails"],
+                        "C03_style_alignment_from_cell_style_fails",
+                        "C03_merges", "C03_defined_names", "C03_defined_name_areas", "C03_names_home", "C03_sheet_paths", "C03_sheet_part",
+                        "C03_table_columns", "C03_book_sheet", "C03_book"],
     "rule": "case = one xlsx file: `c03 reset file <corpus file>`, `c03 reset gen <seed>` (grammar derivation from the seed; productions listed at the top of harness/src/c03.rs and "
             "counted as prod.* in the distribution: cell encodings t=absent/n/s/str/inlineStr/b/e with and without formula, number forms, shared/inline strings plain/rich/phonetic/"
             "xml:space/looks-typed, entities and character references in text and attributes, shared-formula blocks with the master anywhere in its ref and children right/below/"
             "left-below, array formulas, optional r/spans/s, row attributes, col spans incl. max=16384, 1-4 sheets with escaped names, hidden sheets, arbitrary part names and "
-            "relationship ids, defined names global/local/constant/multi-area, hyperlinks external/location/both/tooltip/display, one table, a styles part with 1-8 xfs over 6 fonts / 6 fills / 3 borders (xfs share components; "
+            "relationship ids, defined names global/local/constant/multi-area/multi-sheet (first and last area on different sheets)/unknown sheet, names with characters that need escaping, hyperlinks external/location/both/tooltip/display, one table, a styles part with 1-8 xfs over 6 fonts / 6 fills / 3 borders (xfs share components; "
             "font children in different orders, missing sz / name, <b val=0>, underline forms, strike, colours rgb / theme+tint / indexed; pattern fill without patternType; diagonal border; every apply* flag independently absent / 1 / 0 / true / false; "
             "alignment and protection children; built-in and custom number formats)), "
-            "`c03 reset edge <k>` (13 hand-written boundary packages: edge 12 = the non-vacuity example of C03_sheet (two shared groups, children right / below-left, a row and cells without r, inline string, <si/>), edge 13 = the witness of C03_hyperlink_location_with_rid_fails next to valid links and merges; shared-formula blocks at the grid edge, start/end-tag forms, CDATA / comments, literal white space in attributes, t=\"b\" with true / false, a string item with t and runs, an empty <si/>, blanks at the ends of texts). Every part is one request, `c03 decode` compares the library's view with the decoder's, `c03 model` the library's with the reader model's. Only the case headers of a replay are acted on. "
+            "`c03 reset edge <k>` (14 hand-written boundary packages: edge 14 = where defined names live (three sheets behind a relative, an absolute and a dotted target; a scoped name whose area is on another sheet, an unscoped name whose first and last areas are on different sheets, escaped name and sheet name, formula / constant / whole-row bodies, a missing sheet; merged ranges up to the last row), edge 12 = the non-vacuity example of C03_sheet (two shared groups, children right / below-left, a row and cells without r, inline string, <si/>), edge 13 = the witness of C03_hyperlink_location_with_rid_fails next to valid links and merges; shared-formula blocks at the grid edge, start/end-tag forms, CDATA / comments, literal white space in attributes, t=\"b\" with true / false, a string item with t and runs, an empty <si/>, blanks at the ends of texts). Every part is one request, `c03 decode` compares the library's view with the decoder's, `c03 model` the library's with the reader model's. Only the case headers of a replay are acted on. "
             "non-trivial = every part / decode request; distinct = distinct request line",
     "trusted_base": TB_COMMON + ["independent decoder Umya/Spec/XmlLex.lean + Sml.lean + SharedFormula.lean + Double.lean (executed, not verified against the standards' text)",
                                  "zip crate", "harness generator and view (harness/src/c03.rs)", "difference classifier (tools/props.d/C03.py)"],
@@ -226,6 +242,18 @@ PROP = {
                     "C03_sst: every si a validRst; C03_hyperlinks: validHyperlinks (an r:id link's relationship exists and the link has no location - known finding C03-hyperlink-location-with-rid, refuted by "
                     "C03_hyperlink_location_with_rid_fails, edge 13 - ; a link without r:id has location) and RelsAgree (from C03_rels: every Relationship carries Id, Type, Target); "
                     "C03_sheet_list: name, sheetId, r:id present; C03_defined_names_partial: localSheetId fits u32, content without blanks at its ends (trim_text)",
+                    "C03_merges, hypothesis MergeRefOk per ref (explicit; decidable sufficient test mergeRefOkB, sound by mergeRefOkB_sound; the driver prints per file how many refs pass, informational): the text is Range.print of a range of one of the four shapes with columns <= ZZZ and rows < 2^32 "
+                    "(outside: lower-case references - the range stays empty -, leading zeros in the row, more than one colon - panic)",
+                    "C03_defined_names, hypotheses validDefinedName and NameTextOk (decidable sufficient test nameTextOkB, sound): the text is not a plain list of cell areas (kept verbatim), or a list of areas in the spelling get_address_ptn2 prints "
+                    "(sheet name in apostrophes unless made of digits / lower-case letters only)",
+                    "C03_names_home: every localSheetId inside the sheet list (else the library panics and the decoder reports the file as outside the domain). HOME in the tie: the harness dumps for every name the list it is found in (w = Spreadsheet::get_defined_names(), k = get_sheet(k).get_defined_names()); "
+                    "the reader model computes it (rehome) and `c03 model` compares ALL homes (correspondence); the independent decoder states a home only for scoped names (ECMA-376 18.2.5 localSheetId = the sheet the name is scoped to) and `g` for workbook-scoped names: "
+                    "that the library files an unscoped name under the sheet of its first area is an API convention without counterpart in the standard, so it is compared between implementation and model only",
+                    "C03_sheet_paths, hypothesis targetOk: no condition on a relative target; an absolute target has no empty, `.` or `..` segment",
+                    "C03_table_columns: every tableColumn has a non-empty name (the library drops a column without one)",
+                    "C03_book: hypotheses that stay PER FILE (not proved, exercised by every run): zip access by name + XML parsing = lookupOf (the decoder's part look-up); the package relationship names xl/workbook.xml (the library hard-codes the name); the sharedStrings / styles relationships name xl/sharedStrings.xml / xl/styles.xml (hard-coded too) and both parts are present; "
+                    "for each sheet the relationships part is found under the reader's name for it (relsPartOf) exactly when the decoder finds it under the standard's (relsNameOf) - stated as an equation of look-ups, not proved from the path functions; "
+                    "C03_book is stated with the spec's shared-formula translator inside the reader model (C03_sheet_decoder); with the code's translator C03_sheet_code gives the same statement against the decoder's walk with that translator (text equality of the two translators: known finding C03-shared-formula-blanks-dropped)",
                     "C03_style_resolution, hypothesis validStyles (explicit, decidable; Lemmas/ReaderStyle*.lean document each conjunct): unprefixed element names in the root and the tables; each table (numFmts, fonts, fills, borders, cellStyleXfs, cellXfs) at most once; "
                     "numFmt: numFmtId an unsigned decimal fitting u32 and formatCode present (the library unwraps both), ids pairwise different (the library's map keeps the last, the decoder finds the first); font: each of name sz b i u strike color at most once, no rFont, "
                     "name / sz / scheme carry val, family / charset val an i32 (unwraps), u val a word of ST_UnderlineValues, colour attributes not repeated and indexed / theme unsigned decimals fitting u32; fill: at most one patternFill, NO gradientFill (outside the model), "
@@ -238,16 +266,18 @@ PROP = {
                     "the model reads the element tree: `<v/>` `<t/>` `<is/>` `<r/>` (Empty events, ignored by the library) are not distinguished from the start/end-tag forms; elements are matched by local name "
                     "(the library matches unprefixed names only); character data directly inside <c> is not modelled; usize is 64 bits",
                     "Rust's f64 parser is correctly rounded (the spec side computes the nearest binary64 exactly with integer arithmetic)"],
-    "partial_clauses": ["whole-file agreement is validated per file (translation validation), not proved: the theorems now reach one <sheetData>, the <sst>, the hyperlink / merge / sheet / definedName loops, each against the "
-                        "corresponding expression of Spec.decodeSheet / decode; NOT composed into one statement about a package (zip access, part lookup by path, join_paths vs resolveTarget, styles) ",
+    "partial_clauses": ["whole-file agreement: C03_book composes the per-part theorems into one statement about a package for the modelled skeleton (sheet list with path resolution, cells, style facts, merges, hyperlinks, defined names with homes); what stays per file: zip access and XML parsing (lookupOf), "
+                        "the fixed part names the library opens vs the relationships (workbook, sharedStrings, styles), the name of a sheet's relationships part (relsPartOf vs relsNameOf, an equation of look-ups in the hypothesis), cells.set_fast (last write wins; C03_book compares cells in document order), "
+                        "the tree abstraction (tag forms, comments, CDATA: `unmodelled`), and everything outside the skeleton (columns, rows, tables inside the book statement, active tab, charts, drawings, comments, conditional formats, data validations); no kernel-checked instance of ALL hypotheses of C03_book at once (Node / Rel have no decidable equality): each hypothesis has its own example, examplePkg is evaluated, edge 14 replays the shape",
+                        "C03_defined_names does not cover an area list in another spelling of the same references (Sheet1!$A$1 as Excel writes it: the library prints 'Sheet1'!$A$1 because its quoting test index_from_coordinate(name) != None is an unanchored pattern); compared per file with every plain qualifier quoted on both sides (quote_qualifiers / canonName); needs the text-to-range direction of the range codec (C17 proves print-then-parse only)",
+                        "model note: reader/xlsx.rs lets the LAST workbook relationship with the sheet's r:id win (the loop overwrites the raw data), the model sheetPart takes the FIRST (find?); equal for unique Ids (OPC requires them; the decoder reports duplicates as outside the domain); not changed here",
+                        "tables: C03_table_columns is about one table part; how the library finds table parts (every sheet relationship of type table) vs the decoder (tableParts / r:id) is not modelled; tables stay per file in the decode view",
                         "C03_sheet holds for every translator T and is instantiated with the spec's and with the code's; that the two translators print the same TEXT for a master formula is NOT proved (false in general: "
                         "known finding C03-shared-formula-blanks-dropped); C03_shared_formula_tokens covers token lists, the tokenizer-vs-scanner step is per file",
                         "validSheetData requires well-formed shared groups (groupsOk: the first f t=shared of an si carries the text, later ones none): a child that precedes its master or carries its own text is outside "
                         "(the code then anchors the group at the first cell seen / overwrites the child's text with the translated master; not replayed as a boundary package)",
-                        "C03_merges_partial / C03_defined_names_partial: the loops and attribute reading are modelled; add_range/get_range and set_address/get_address (text -> objects -> text) are not; "
-                        "the re-homing of defined names to sheets is in the driver's model only",
-                        "C03_sheet_list does not cover the path normalisation (join_paths vs the decoder's resolveTarget); cells.set_fast (last write wins per position) is in the driver (sortedCells), not in the theorem: "
-                        "C03_sheet compares the cells in document order",
+                        "C03_merges_partial / C03_defined_names_partial are kept next to the full C03_merges / C03_defined_names (older statements about the loops only)",
+                        "cells.set_fast (last write wins per position) is in the driver (sortedCells), not in the theorems: C03_sheet / C03_book compare the cells in document order",
                         "C03_cell / C03_positions are theorems about the hand-written model of Cell::set_attributes / Row::set_attributes; the model is tied to the code through the per-file runs only "
                         "(model vs spec on every cell and sheetData, spec vs implementation by the oracle), there is no mechanical extraction of the model from the Rust",
                         "two conjuncts of validCell exclude schema-valid cells on which the code deviates from the spec (proved witnesses, replayed as boundary packages, known findings): a string item with "
@@ -256,7 +286,7 @@ PROP = {
                         "style resolution is proved on the tree-level model (C03_style_resolution) and tied per file through the resolved facts of every cell; NOT covered: gradient fills, cell styles (xfId is not read by the library: "
                         "inheritance from cellStyleXfs[xfId] is neither modelled in the decoder nor done by the library beyond cellStyleXfs[0] - known finding C03-style-alignment-from-cell-style, C03_style_alignment_from_cell_style_fails), number-format ids "
                         "that are neither defined in numFmts nor in the library's built-in table, the CODE of a built-in number format (the decoder shows the id only; ECMA-376 18.8.30 and the library's table differ for 14, 22, 37-40, 47), dxfs, "
-                        "row and column styles (still three facts per row / column through the decoder's xf index), the re-homing of a workbook-scoped defined name to a sheet (NOT visible in the compared view: a seeded change of the re-homing rule is NOT caught)",
+                        "row and column styles (still three facts per row / column through the decoder's xf index)",
                         "charts, drawings, comments, conditional formats, data validations, pivot tables, theme: not compared",
                         "the two corpus files > 1 MB only in the thorough tier"],
     "technique": "independent XML/OPC/SpreadsheetML decoder executed in Lean on every file (translation validation) + Lean theorems on unescaping, cell elements of every type, positions, whole sheetData with shared-formula groups, shared-strings table, hyperlinks / relationships, sheet list (model reader = spec decoder) + the reader model run against the implementation on every file",
